@@ -4,7 +4,7 @@
    so "display: none" / "position: absolute" mean the same in every view by construction.  Definitions only. *)
 From Coq Require Import ZArith Bool List.
 From TV Require Import Model.Common Model.Leaf Gen.GridTracksGen Model.GridTracks.
-From TV Require Import Model.FlexAlgBase Model.FlexAlg Model.EngineLift Model.BlockFlexEngine Model.GridAlgBase Model.GridAlg.
+From TV Require Import Model.FlexAlgBase Model.FlexAlg Model.EngineLift Model.BlockFlexEngine Model.GridAlgBase Model.GridAlg Model.GridAlgTotal.
 From TV Require Gen.FlexGen Gen.BlockGen Model.Block Model.BlockAlg Model.Engine.
 Import ListNotations.
 Close Scope Z_scope.
@@ -58,8 +58,11 @@ Section Taffy.
   (* what a parent may read of an out-of-flow child's style: its grid placement lines (only a grid parent does) *)
   Definition t_lines (s : TStyle T) : PB.Ln PB.GP * PB.Ln PB.GP := (ts_row s, ts_column s).
 
+  (* the grid container algorithm: Model/GridAlg.v `grid_alg` wherever the Rust code does not panic; where it does (grid_no_panic fails:
+     the whole compute_layout call aborts, there is nothing to model) the total stand-in of Model/GridAlgTotal.v, so that the interface
+     hypotheses of the engine theorems hold for EVERY style, child list and input *)
   Definition grid_alg_t : TStyle T -> list (TStyle T) -> FIn T -> Engine.Alg (FIn T) (LayoutOutput T) (FLay T) :=
-    style_comap (GStyle T) (TStyle T) (FIn T) (LayoutOutput T) (FLay T) to_gstyle grid_alg.
+    style_comap (GStyle T) (TStyle T) (FIn T) (LayoutOutput T) (FLay T) to_gstyle grid_alg_total.
   Definition block_alg_t (pre : B.BStyle T -> BA.BIn T -> BA.BIn T) (abs_child : @BA.AbsChild T)
     : TStyle T -> list (TStyle T) -> FIn T -> Engine.Alg (FIn T) (LayoutOutput T) (FLay T) :=
     style_comap (BFStyle T) (TStyle T) (FIn T) (LayoutOutput T) (FLay T) ts_bf (block_alg_bf pre abs_child).
@@ -80,13 +83,14 @@ Section Taffy.
       | TKLeaf => Engine.Ret (FIn T) (LayoutOutput T) (FLay T) (leaf s i)
       end.
 
-  (* taffy_tree.rs l.370-394: `match (display_mode, has_children)`; the arm (Display::None, _) is the engine's (Model/Engine.v `memo`
-     tests is_none before it runs the algorithm), so what a display:none style is mapped to here is never evaluated *)
+  (* taffy_tree.rs l.370-394: `match (display_mode, has_children)`.  The arm (Display::None, _) is the engine's (Model/Engine.v `memo`
+     tests is_none before it runs the algorithm), so what a display:none style WITH children is mapped to here is never evaluated; it is
+     mapped to an algorithm for which every interface hypothesis of the engine theorems holds (a leaf would not visit its children) *)
   Definition t_core (s : TStyle T) : Style T := fs_core (bf_flex (ts_bf s)).
   Definition taffy_dispatch (s : TStyle T) (n_children : nat) : TKind :=
     match n_children with
     | O => TKLeaf
-    | S _ => match display (t_core s) with DBlock => TKBlock | DFlex => TKFlex | DGrid => TKGrid | DNone => TKLeaf end
+    | S _ => match display (t_core s) with DBlock => TKBlock | DFlex => TKFlex | DGrid => TKGrid | DNone => TKFlex end
     end.
 
   (* the (_, false) arm: compute_leaf_layout(inputs, style, measure_function) -- Model/Leaf.v, ALL of leaf.rs; its `unreachable!()`
@@ -103,8 +107,9 @@ Section Taffy.
     | None => output_HIDDEN
     end.
 
-  (* ---- the engine's other parameters: the run mode of an input, the exact memo key (every field of the LayoutInput, numbers compared
-     as numbers), LayoutOutput::HIDDEN, Layout::with_order(0) *)
+  (* ---- the engine's other parameters: the run mode of an input, the memo key (every field of the LayoutInput; numbers compared with
+     `teq`: `eqb` of the Num instance compares them as numbers, Model/TaffyKey.v gives the representation equalities of F32 / XQ, which
+     are EXACT keys: equal keys are equal inputs), LayoutOutput::HIDDEN, Layout::with_order(0) *)
   Definition mode_eqb (a b : Engine.RunMode) : bool :=
     match a, b with
     | Engine.PerformLayout, Engine.PerformLayout | Engine.ComputeSize, Engine.ComputeSize
@@ -115,24 +120,26 @@ Section Taffy.
     match a, b with ContentSize, ContentSize | InherentSize, InherentSize => true | _, _ => false end.
   Definition axis_eqb (a b : ReqAxis) : bool :=
     match a, b with AxHorizontal, AxHorizontal | AxVertical, AxVertical | AxBoth, AxBoth => true | _, _ => false end.
-  Definition o_eqb (a b : option T) : bool :=
-    match a, b with Some x, Some y => eqb x y | None, None => true | _, _ => false end.
-  Definition av_eqb (a b : AvailableSpace T) : bool :=
+  Definition o_eqb (teq : T -> T -> bool) (a b : option T) : bool :=
+    match a, b with Some x, Some y => teq x y | None, None => true | _, _ => false end.
+  Definition av_eqb (teq : T -> T -> bool) (a b : AvailableSpace T) : bool :=
     match a, b with
-    | Types.Definite x, Types.Definite y => eqb x y
+    | Types.Definite x, Types.Definite y => teq x y
     | Types.MinContent, Types.MinContent | Types.MaxContent, Types.MaxContent => true
     | _, _ => false
     end.
-  Definition fin_eqb (a b : FIn T) : bool :=
+  Definition fin_eqb_with (teq : T -> T -> bool) (a b : FIn T) : bool :=
     mode_eqb (qi_mode a) (qi_mode b) && sizing_eqb (qi_sizing a) (qi_sizing b) && axis_eqb (qi_axis a) (qi_axis b)
-    && o_eqb (width (qi_known a)) (width (qi_known b)) && o_eqb (height (qi_known a)) (height (qi_known b))
-    && o_eqb (width (qi_parent a)) (width (qi_parent b)) && o_eqb (height (qi_parent a)) (height (qi_parent b))
-    && av_eqb (width (qi_avail a)) (width (qi_avail b)) && av_eqb (height (qi_avail a)) (height (qi_avail b))
+    && o_eqb teq (width (qi_known a)) (width (qi_known b)) && o_eqb teq (height (qi_known a)) (height (qi_known b))
+    && o_eqb teq (width (qi_parent a)) (width (qi_parent b)) && o_eqb teq (height (qi_parent a)) (height (qi_parent b))
+    && av_eqb teq (width (qi_avail a)) (width (qi_avail b)) && av_eqb teq (height (qi_avail a)) (height (qi_avail b))
     && Bool.eqb (l_start (qi_collapsible a)) (l_start (qi_collapsible b))
     && Bool.eqb (l_end (qi_collapsible a)) (l_end (qi_collapsible b)).
 
-  Definition taffy_memo disp pre abs_child leaf :=
-    Engine.memo (TStyle T) (FIn T) (LayoutOutput T) (FLay T) qi_mode fin_eqb t_is_none output_HIDDEN (f_with_order 0)
+  Definition fin_eqb : FIn T -> FIn T -> bool := fin_eqb_with eqb.
+
+  Definition taffy_memo (teq : T -> T -> bool) disp pre abs_child leaf :=
+    Engine.memo (TStyle T) (FIn T) (LayoutOutput T) (FLay T) qi_mode (fin_eqb_with teq) t_is_none output_HIDDEN (f_with_order 0)
                 (taffy_algo disp pre abs_child leaf).
   Definition taffy_plain disp pre abs_child leaf :=
     Engine.plain (TStyle T) (FIn T) (LayoutOutput T) (FLay T) qi_mode t_is_none output_HIDDEN (taffy_algo disp pre abs_child leaf).
